@@ -39,47 +39,72 @@ DOMAIN = {"quick": "quick", "thorough": "wide"}
 _G = {}
 
 
-def _init_worker():
-    griffe = ensure_repo()
-    _G["griffe"] = griffe
-    _G["taps"] = w.Taps(griffe)
+def _setup():
+    """Install the taps ONCE, in the parent, before any fork (workers inherit them): a failure here is a plain
+    exception in the driver (exit 2), never a crashing pool initializer."""
+    if "taps" not in _G:
+        griffe = ensure_repo()
+        _G["griffe"] = griffe
+        _G["taps"] = w.Taps(griffe)
+    return _G["taps"]
 
 
 def _work(item):
     idx, case = item
-    with scratch("c19-") as d:
-        try:
+    try:
+        with scratch("c19-") as d:
             rep = k.check_case(_G["griffe"], _G["taps"], case, d)
-        except Exception as exc:  # noqa: BLE001
-            import traceback
+    except BaseException as exc:  # noqa: BLE001  (a worker must always answer)
+        import traceback
 
-            rep = {"machinery": [f"harness crashed on case {idx}: {exc!r} {traceback.format_exc()[-600:]}"], "violations": [], "drift": [], "runs": 0, "facts": []}
+        rep = {"machinery": [f"harness crashed on case {idx}: {exc!r} {traceback.format_exc()[-600:]}"], "violations": [], "drift": [], "runs": 0, "facts": []}
     rep["idx"] = idx
     return rep
+
+
+def _results(cases: list, procs: int):
+    """Per-case reports: forked pool with a per-result timeout; in-process when the pool cannot be used."""
+    items = list(enumerate(cases))
+    if procs <= 1 or len(items) < 8:
+        yield from map(_work, items)
+        return
+    ctx = multiprocessing.get_context("fork")
+    pool = ctx.Pool(procs)
+    try:
+        it = pool.imap_unordered(_work, items)      # chunksize 1: the iterator supports next(timeout)
+        for _ in items:
+            try:
+                yield it.next(timeout=600)
+            except multiprocessing.TimeoutError:
+                die("C19: a replay worker did not answer within 600 s (worker died?)")
+    finally:
+        pool.terminate()
 
 
 def replay_cases(run: Run, cases: list, procs: int):
     facts: set = set()
     drift: list = []
-    ctx = multiprocessing.get_context("fork")
-    with ctx.Pool(procs, initializer=_init_worker) as pool:
-        for rep in pool.imap_unordered(_work, list(enumerate(cases)), chunksize=4):
-            case = cases[rep["idx"]]
-            if rep["machinery"]:
-                die("C19 binding: " + "; ".join(rep["machinery"][:3]) + f" [case a={case['a']} b={case['b']}]")
-            run.replayed(rep["runs"])
-            run.evaluated(rep["runs"] * (len(k.CLAUSES)) + 1)
-            key = {"a": case["a"], "b": case["b"], "mdoc": case["mdoc"]}
-            if any(v != "absent" for n in ("a", "b") for v in case["class"][n].values()) and case["preS"]["self"]["ord"] + [x for x in ("a", "b") if case["preS"]["self"]["ovd"][x]]:
-                run.nontrivial_case(key)
-            run.sample(key)
-            for sig, what in rep["violations"]:
-                run.violation(sig, what, {"case": case})
-            drift += rep["drift"]
-            facts.update(rep["facts"])
+    taps = _setup()
+    for what in taps.skipped:
+        run.note(f"conformance detail skipped, private layout of the code differs: {what}")
+    for rep in _results(cases, procs):
+        case = cases[rep["idx"]]
+        if rep["machinery"]:
+            die("C19 binding: " + "; ".join(rep["machinery"][:3]) + f" [case a={case['a']} b={case['b']}]")
+        run.replayed(rep["runs"])
+        run.evaluated(rep["runs"] * (len(k.CLAUSES)) + 1)
+        key = {"a": case["a"], "b": case["b"], "mdoc": case["mdoc"]}
+        if any(v != "absent" for n in ("a", "b") for v in case["class"][n].values()) and case["preS"]["self"]["ord"] + [x for x in ("a", "b") if case["preS"]["self"]["ovd"][x]]:
+            run.nontrivial_case(key)
+        run.sample(key)
+        for sig, what in rep["violations"]:
+            run.violation(sig, what, {"case": case})
+        drift += rep["drift"]
+        facts.update(rep["facts"])
     if drift:
         run.note(f"model drift: {len(drift)} run(s) where the real code differs from the Impl transcription of Merge.tla; first: {drift[:3]}")
     run.extra["drift_runs"] = len(drift)
+    run.extra["conformance_skipped"] = list(taps.skipped)
     return facts
 
 
